@@ -1450,13 +1450,33 @@ fn format_hanging_expression_(
         Expression::UnaryOperator { unop, expression } => {
             let unop = format_unop(ctx, unop, shape);
             let shape = shape + strip_leading_trivia(&unop).to_string().len();
-            let expression = format_hanging_expression_(
+            let mut expression = format_hanging_expression_(
                 ctx,
                 expression,
                 shape,
                 ExpressionContext::UnaryOrBinary,
                 lhs_range,
             );
+
+            // Special case: `- -foo` or `-(-foo)` must not become `--foo` (same as the single line formatter)
+            if let UnOp::Minus(_) = unop {
+                if let Expression::UnaryOperator {
+                    unop: UnOp::Minus(_),
+                    ..
+                } = expression
+                {
+                    let (new_expression, trailing_comments) =
+                        trivia_util::take_trailing_comments(&expression);
+                    expression = Expression::Parentheses {
+                        contained: ContainedSpan::new(
+                            TokenReference::symbol("(").unwrap(),
+                            TokenReference::symbol(")").unwrap(),
+                        )
+                        .update_trailing_trivia(FormatTriviaType::Append(trailing_comments)),
+                        expression: Box::new(new_expression),
+                    }
+                }
+            }
 
             Expression::UnaryOperator {
                 unop,
